@@ -191,6 +191,17 @@ impl<const N: usize> Bindings<N> {
         })
     }
 
+    /// Drop every binding whose fabric `exists` says is not there, returning
+    /// whether anything was removed.
+    fn retain_fabrics(&self, mut exists: impl FnMut(NonZeroU8) -> bool) -> bool {
+        self.state.lock(|cell| {
+            let mut state = cell.borrow_mut();
+            let before = state.len();
+            state.retain(|binding| exists(binding.fab_idx));
+            state.len() < before
+        })
+    }
+
     /// Serialise the registry to `ctx.kv()` under [`BINDINGS_KEY`].
     fn store_persist<C: HandlerContext>(&self, ctx: &C) -> Result<(), Error> {
         let mut persist = Persist::new(ctx.kv());
@@ -444,9 +455,26 @@ impl<const N: usize> ClusterHandler for BindingHandler<'_, N> {
 
     fn lifecycle(&self, ctx: impl HandlerContext, op: LifecycleOp) -> Result<(), Error> {
         match op {
-            LifecycleOp::Startup => ctx
-                .kv()
-                .access(|store, buf| self.bindings.load_persist(store, buf)),
+            LifecycleOp::Startup => {
+                ctx.kv()
+                    .access(|store, buf| self.bindings.load_persist(store, buf))?;
+
+                // A binding is stored as soon as it is written - also one of a fabric whose
+                // commissioning never completed (the node restarted while the fail-safe was
+                // armed, so the fabric itself was never stored). Drop the bindings whose fabric
+                // does not exist: a later fabric that gets the same local index must not
+                // inherit them.
+                let dropped = ctx.matter().with_state(|state| {
+                    self.bindings
+                        .retain_fabrics(|fab_idx| state.fabrics.get(fab_idx).is_some())
+                });
+
+                if dropped {
+                    self.bindings.store_persist(&ctx)?;
+                }
+
+                Ok(())
+            }
             LifecycleOp::FactoryReset => ctx
                 .kv()
                 .access(|store, buf| self.bindings.reset_persist(store, buf)),
